@@ -420,7 +420,7 @@ PROPS = {
         "drivers": ["drv_cli", "skeleton", "cmd-bisquitt", "cmd-bisquitt-pub", "cmd-bisquitt-sub", "drv_topics"],
         "units": [Unit("drv_cli", unit_cli), Unit("call-site-skeleton", unit_skeleton(r"^CLI ")), Unit("drv_topics", unit_topics)],
         "mismatch_kinds": [r"gateway topic", r"predefined id", r"short topic", r"plain topic", r"configuration", r"driver",
-                           r"SKELETON", r"GetTopic"],
+                           r"SKELETON", r"GetTopic", r"tool mapping"],
         "rule": "the three real binaries run over loopback against a fake gateway / fake broker with generated YAML files and "
                 "--predefined-topic option lists (overlapping, later overriding earlier, 2- and 3-field forms, malformed ones); "
                 "observed: the topic ID on the wire (pub/sub) and the MQTT topic name at the broker (gateway), exit status",
@@ -683,14 +683,15 @@ def unit_c25_runs(ctx):
 
 PROPS["C25"] = {
     "theorems": ["C25_gateway_never_crashes", "C25_client_never_crashes"],
-    "drivers": ["drv_gw.test", "drv_client.test", "skeleton", "drv_codec"],
+    "drivers": ["drv_gw.test", "drv_client.test", "skeleton", "drv_codec", "drv_match"],
     "units": [Unit("stateful-runs", unit_c25_runs), Unit("panic-site-census", unit_skeleton(r"^PANIC ")),
-              Unit("drv_codec", unit_codec)],
+              Unit("drv_codec", unit_codec), Unit("drv_match", unit_match)],
     "mismatch_kinds": [r"PANIC", r"MISSING-", r"SKELETON", r"decode class"],
     "rule": GW_RULE + "; " + CL_RULE + "; three concurrent sessions per gateway (C15 runs); every history runs in a process "
             "whose crash is recorded with the history that caused it; malformed and adversarial packets (random type bytes, "
             "boundary lengths, packets illegal in the state, stale and duplicate acknowledgements) are part of every profile; the "
-            "census of panic-capable expressions of gateway/, client/, transactions/, util/ is regenerated from source",
+            "census of panic-capable expressions of gateway/, client/, transactions/, util/ is regenerated from source; the client's "
+            "topic matcher is run on ALL filter x name pairs over a small alphabet under recover()",
     "assumptions": GW_ASSUME + CL_ASSUME + ["the justifications of coq/panic_sites.md for the unchecked assertions / index "
                                             "expressions outside the codec (constructor type invariants, paho NewControlPacket)",
                                             "nil-pointer dereferences are not recognisable syntactically and are covered only by the runs"],
